@@ -205,6 +205,24 @@ func c04run(out *rec.Out, c c04case, rng *rec.Rng, stats map[string]int) {
 	if g.XPath {
 		stats["xpath_definitions"]++
 	}
+	// a quarter of the single-token cases with several conditions MIX the languages inside one gateway: every second
+	// condition names the other language in its own `language` attribute (each condition is evaluated in ITS language)
+	if c.toks == 1 && c.c >= 2 && (c.c+c.truth+c.defPos)%4 == 1 {
+		k := 0
+		for _, fl := range g.Flows {
+			if fl.Src == x.ID && fl.Cond != nil && fl.ID != x.Default {
+				if k%2 == 1 {
+					if g.XPath {
+						fl.Cond.Lang = "expr"
+					} else {
+						fl.Cond.Lang = "xpath"
+					}
+				}
+				k++
+			}
+		}
+		stats["gateways_mixing_expression_languages"]++
+	}
 	out.Begin("c04", c.c, c.defPos, c.truth, c.toks, c.conc, rec.B(g.XPath))
 	defer out.End()
 	if c.conc == 2 {
